@@ -128,6 +128,11 @@ def gen(seed, family=None, knobs=None):
     for i in range(nclients):
         si = rnd.randrange(len(subnets))
         want.append((f"pc_{i + 1}", rnd.choice(["computer", "computer", "server"]), f"{subnets[si][0]}.{21 + i}", si, None))
+    # C2 suite (separate random stream): a beacon on one client pointing at a C2 server application on the web server
+    rnd_c2 = random.Random(f"{seed}-c2-suite")
+    c2_beacon_host = c2_server_host = c2_server_ip = None
+    if knobs.get("c2", True) and rnd_c2.random() < 0.35:
+        c2_beacon_host, c2_server_host, c2_server_ip = "pc_1", "web_srv", ips["web"]
     meta_hosts = {}
     for name, kind, ip, si, fixed in want:
         prefix, gw, sw = subnets[si]
@@ -158,6 +163,13 @@ def gen(seed, family=None, knobs=None):
             services = services + [{"type": "dns-client", "options": {"dns_server": ips["db"] if rnd_s.random() < 0.7 else ips["dns"]}}]
         if rnd_s.random() < 0.25 and not any(x["type"] == "ntp-client" for x in services):
             services = services + [{"type": "ntp-client", "options": {"ntp_server_ip": ips["web"]}}]
+        if knobs.get("c2", True):
+            if name == c2_beacon_host:
+                apps = apps + [{"type": "c2-beacon", "options": {"c2_server_ip_address": c2_server_ip, "keep_alive_frequency": rnd_c2.choice([2, 3, 5])}}]
+                if not any(a["type"] == "ransomware-script" for a in apps):
+                    apps = apps + [{"type": "ransomware-script", "options": {"server_ip": ips["db"], "payload": "ENCRYPT"}}]
+            if name == c2_server_host:
+                apps = apps + [{"type": "c2-server"}]
         if services:
             kw["services"] = services
         if apps:
@@ -201,6 +213,8 @@ def gen(seed, family=None, knobs=None):
             for v in rnd.sample(APP_VERBS, rnd.randint(2, len(APP_VERBS))):
                 if v == "execute" and ap == "web-browser" and rnd.random() < 0.5:
                     continue
+                if v == "execute" and ap in ("c2-server", "nmap"):
+                    continue  # these applications define no 'execute' operation: the action type cannot address them
                 add(f"node-application-{v}", {"node_name": h, "application_name": ap})
         for fo, files in mh["folders"].items():
             for v in rnd.sample(FOLDER_VERBS, rnd.randint(2, len(FOLDER_VERBS))):
@@ -224,6 +238,44 @@ def gen(seed, family=None, knobs=None):
         add("node-nmap-ping-scan", {"source_node": h, "target_ip_address": subnets[0][0] + ".0/28"})
         add("node-nmap-port-scan", {"source_node": h, "target_ip_address": subnet_ips[:2], "target_port": [80, 5432, 21], "target_protocol": ["tcp", "udp"]})
         add("node-network-service-recon", {"source_node": h, "target_ip_address": subnet_ips[:3], "target_port": 5432, "target_protocol": "tcp"})
+    # sessions, remote / local commands, configure-* and the C2 server's actions (own random stream)
+    rnd_x = random.Random(f"{seed}-session-configure-c2-actions")
+    ip_of = {h: meta_hosts[h]["ip"] for h in hosts}
+    for h in hosts:
+        others = [x for x in hosts if x != h]
+        if not others or rnd_x.random() < 0.4:
+            continue
+        tgt = ip_of[rnd_x.choice(others)]
+        add("node-session-remote-login", {"node_name": h, "username": "admin", "password": rnd_x.choice(["admin", "admin", "wrong"]), "remote_ip": tgt})
+        add("node-send-remote-command", {"node_name": h, "remote_ip": tgt, "command": rnd_x.choice([["file_system", "create", "folder", "rc"],
+                                                                                                      ["service", "dns-client", "stop"], ["os", "scan"]])})
+        add("node-session-remote-logoff", {"node_name": h, "remote_ip": tgt})
+        add("node-send-local-command", {"node_name": h, "username": "admin", "password": rnd_x.choice(["admin", "nope"]),
+                                        "command": ["file_system", "create", "file", "lc", "f.txt", False]})
+        add("node-account-change-password", {"node_name": h, "username": "admin", "current_password": "admin", "new_password": "admin2"})
+    for h in hosts:
+        apps_h = meta_hosts[h]["apps"]
+        if "database-client" in apps_h or rnd_x.random() < 0.15:
+            add("configure-database-client", {"node_name": h, "server_ip_address": ips["db"], "server_password": rnd_x.choice([None, "pw"])},
+                "valid" if "database-client" in apps_h else "missing")
+        if "dos-bot" in apps_h or rnd_x.random() < 0.15:
+            add("configure-dos-bot", {"node_name": h, "target_ip_address": ips["web"], "target_port": "HTTP", "repeat": rnd_x.random() < 0.5,
+                                      "max_sessions": rnd_x.choice([1, 5, 1000])}, "valid" if "dos-bot" in apps_h else "missing")
+        if "ransomware-script" in apps_h or rnd_x.random() < 0.15:
+            add("configure-ransomware-script", {"node_name": h, "server_ip_address": ips["db"], "payload": "ENCRYPT"},
+                "valid" if "ransomware-script" in apps_h else "missing")
+    if c2_server_host:
+        add("configure-c2-beacon", {"node_name": c2_beacon_host, "c2_server_ip_address": c2_server_ip, "keep_alive_frequency": rnd_x.choice([1, 3, 5]),
+                                    "masquerade_protocol": "tcp", "masquerade_port": "HTTP"})
+        add("node-application-execute", {"node_name": c2_beacon_host, "application_name": "c2-beacon"})
+        add("c2-server-ransomware-configure", {"node_name": c2_server_host, "server_ip_address": ips["db"], "payload": "ENCRYPT"})
+        add("c2-server-ransomware-launch", {"node_name": c2_server_host})
+        add("c2-server-terminal-command", {"node_name": c2_server_host, "commands": [["file_system", "create", "folder", "c2"]], "ip_address": None,
+                                           "username": "admin", "password": "admin"})
+        add("c2-server-data-exfiltrate", {"node_name": c2_server_host, "username": "admin", "password": "admin", "target_ip_address": ips["db"],
+                                          "target_file_name": "database.db", "target_folder_name": "database", "exfiltration_folder_name": "loot"})
+    else:
+        add("c2-server-ransomware-launch", {"node_name": hosts[0]}, "missing")
     # deliberately missing / misspelt targets
     h0 = hosts[0]
     add("node-service-stop", {"node_name": h0, "service_name": "no-such-service"}, "missing")
